@@ -392,7 +392,7 @@ def explore(tier, seed):
 
     sched_cov = {}
     for drv in ("regex-plugin", "xml-plugin"):
-        r = c11a.explore_parallel(drv, "line", 1)
+        r = c11a.explore_cached(drv, "line", 1)
         sched_cov[drv] = {"executions": r["executions"], "distinct_outcomes": len(r["outcomes"]), "preemption_bound": 1}
         if len(r["outcomes"]) != 1:
             alt = [ch for h, ch in r["outcomes"].items() if h != r["root"]["hash"]][0]
